@@ -12,7 +12,7 @@
    C15_dnav (navigation = plain indexing) and C09_by_name / C09_values (Props/C15.v, Props/C09.v). *)
 From Coq Require Import List Arith NArith ZArith Bool.
 Import ListNotations.
-Require Import SR.Base.Res SR.Spec.Layout SR.Model.Layout SR.Model.LayoutValue SR.Proofs.LayoutValueP.
+Require Import SR.Base.Res SR.Spec.Layout SR.Model.Layout SR.Model.LayoutValue SR.Spec.Coherence SR.Proofs.LayoutValueP.
 Require SR.Spec.Table SR.Spec.JsonDoc SR.Model.SchemaMaker SR.Proofs.SchemaMakerP SR.Model.HeaderRow SR.Proofs.HeaderRowP.
 Open Scope nat_scope.
 
@@ -167,6 +167,16 @@ Theorem C10_tree_fixed : forall (B : Type) (dcount : list B -> nat) (r r' : list
 Proof. intros B dcount r r' s st an H. exact (proj1 (walkv_record_free B dcount r r') s H st an). Qed.
 Print Assumptions C10_tree_fixed.
 
+(* with OCCURS DEPENDING ON: two records whose counter fields (the atoms registered under the names the ODO tables
+   consult) give the same counts produce the same navigator, locations and anchors alike *)
+Theorem C10_tree_counters : forall (B : Type) (dcount : list B -> nat) (r r' : list B) s v,
+  vnav_of dcount r s = Ok v ->
+  (forall c a cst csz, In c (odo_keys s) -> In (KName c, WAtom a cst csz) (vn_an v) ->
+     dcount (slice r cst (cst + csz)) = dcount (slice r' cst (cst + csz))) ->
+  vnav_of dcount r' s = Ok v.
+Proof. exact nav_counters. Qed.
+Print Assumptions C10_tree_counters.
+
 (* for schemas without $ref and ODO every location reached reads inside its own range, so C10_lazy applies *)
 Theorem C10_foot_inside_simple : forall (B : Type) (dcount : list B -> nat) (r : list B) s p v0 v,
   simple s = true -> vnav_of dcount r s = Ok v0 -> vnav_path dcount r v0 p = Ok v -> foot_inside v = true.
@@ -245,6 +255,17 @@ Example C10_example_lazy :
   /\ (match ex_at ex_r [] with Ok v => foot_inside v | Err _ => false end) = true
   /\ ex_at ex_r [SKey (KName 3%N); SIdx 2] = Err IndexError.
 Proof. vm_compute. repeat split; reflexivity. Qed.
+
+(* C10_tree_counters and C10_lazy together on the ODO record below: the records 1 21 22 and 1 99 22 agree on the
+   counter, so they give the same navigator; the second holds an undecodable byte in the first occurrence of G,
+   the second occurrence reads the same in both *)
+Example C10_example_counters :
+  vnav_of (fun bs => match bs with [n] => n | _ => 0 end) [1; 21; 22]
+    (build (Group 1%N Once None (ICons (Elem 2%N 1 Once None) (ICons (Elem 4%N 1 (Odo 2%N) None) INil))))
+  = vnav_of (fun bs => match bs with [n] => n | _ => 0 end) [1; 99; 22]
+    (build (Group 1%N Once None (ICons (Elem 2%N 1 Once None) (ICons (Elem 4%N 1 (Odo 2%N) None) INil))))
+  /\ odo_keys (build (Group 1%N Once None (ICons (Elem 2%N 1 Once None) (ICons (Elem 4%N 1 (Odo 2%N) None) INil)))) = [2%N].
+Proof. vm_compute. split; reflexivity. Qed.
 
 (* K-negative-index: index(-1) on the table T (start 2, item size 3) is walked from start -1 *)
 Example C10_negative_index_example :
